@@ -17,9 +17,9 @@ CLAUSES = {
 MANIFEST = {
     "text": "TLC model-checks the heat part of the Process machine with exact rationals (evaporation heat, self-cooling, programme, "
             "isothermal constancy, condensation-heat presence; the original isothermal heat formula D1 is a named deviation that must be "
-            "caught) and validates every step of recorded runs, plus step-0 twins of the isothermal and non-isothermal models.",
+            "caught) and validates every step of recorded runs, plus step-0 twins of the isothermal and non-isothermal models. tlapm proves for every N that an isothermal run of the same specification reports the initial temperature at every step.",
     "note": "Scenarios sampled. Oracles: public Component.get_vaporisation_heat / get_specific_heat and TemperatureProgram.program.",
-    "technique": "TLA+ state machine + TLC (exact rationals) + TLC trace validation of recorded process runs",
+    "technique": "TLA+ state machine + TLC (exact rationals) + TLC trace validation of recorded process runs + TLAPS proofs about the same specification module (tlapm)",
 }
 
 
